@@ -35,6 +35,9 @@ type gramParser struct {
 	YYLex   ssa.Value       // parameter yylex
 	R1, R2  []int64         // yyR1, yyR2 as they stand in the .go file
 	NTName  map[int64]string
+	Explicit map[string]bool // list-typed symbols that are enumerated element by element (bounded)
+	ExplicitGrew bool
+	cbHelper map[*ssa.Function]bool
 	ParserT *types.Named // *Parser of the package
 	Problems []string
 }
@@ -86,7 +89,7 @@ func loadGramParser(w *World, name string) (*gramParser, error) {
 	if sp == nil {
 		return nil, fmt.Errorf("package %s not loaded", pkg)
 	}
-	gp := &gramParser{W: w, Name: name, Pkg: pkg, Regions: map[int]*gramRegion{}, NTName: map[int64]string{}}
+	gp := &gramParser{W: w, Name: name, Pkg: pkg, Regions: map[int]*gramRegion{}, NTName: map[int64]string{}, Explicit: map[string]bool{}}
 	gp.Fn = w.lookupFunc(pkg, "(*yyParserImpl).Parse")
 	if gp.Fn == nil {
 		return nil, fmt.Errorf("no (*yyParserImpl).Parse in %s", pkg)
